@@ -494,6 +494,17 @@ func vfRunC10(c vfC10Case) *kit.Result {
 	defer os.RemoveAll(dir)
 	logPath, err := vfC10Spawn(dir, casePath, "", 0)
 	if err != nil {
+		if msg := err.Error(); strings.Contains(msg, "panic:") || strings.Contains(msg, "fatal error:") {
+			// the daemon's own code brought the uncrashed run down
+			if i := strings.Index(msg, "panic:"); i >= 0 {
+				msg = msg[i:]
+			}
+			if len(msg) > 600 {
+				msg = msg[:600]
+			}
+			r.Failf("the daemon crashed while processing the stream (no kill was injected): %s", msg)
+			return r
+		}
 		r.Infra = fmt.Sprintf("%v", err)
 		return r
 	}
